@@ -506,7 +506,7 @@ CLAIM = {
             "is interpreted with resting tagged exits: a changed declaration cancels exactly the old orders of that kind and submits "
             "one tagged order per new row; _on_open_position tags its exits and - for every relation of a pre-declared exit price to the "
             "entry price - submits one reduce-only closing order of the declared quantity (its replacement of wrong-side exits by an "
-            "immediate market close is a recorded known finding); _execute_cancel cancels everything and clears all "
+            "immediate market close is a recorded known finding); liquidate() after a consumed identical declaration still submits its exit; _execute_cancel cancels everything and clears all "
             "declaration fields; the entry-cancel guard in _check is the stated conjunction.",
     "note": "Trusted: interpreter semantics; price cases are concrete witnesses of the ordinal/boundary cells of |1-p/cur| vs 0.00015.",
 }
